@@ -48,8 +48,8 @@ func main() {
 			nerr++
 			fmt.Fprintln(os.Stderr, "load error:", e)
 		}
-		for i, f := range p.Syntax {
-			name := p.CompiledGoFiles[i]
+		for _, f := range p.Syntax {
+			name := p.Fset.Position(f.Pos()).Filename
 			rel := strings.TrimPrefix(name, dir+"/")
 			if skipFile(name) {
 				continue
